@@ -54,4 +54,14 @@ PROPS = {
         "explanation": "Theorems C05_* + bit-exact correspondence (result vector, iteration count, error class); oracle = the declarative stopping rule (X, D, sched) evaluated on the observed outcome, and the iteration bound.",
         "assumptions": ["the debug log record 'finished' reports the loop counter"],
     },
+    "C18": {
+        "level_text": "Machine-checked theorems for every scalar instance: the statistics after any sequence of checks are the run-length statistics of the sequence of rankings (length = final run - 1, threshold = max(1, sizes of broken runs), deltaNorm = delta at the head of the final run, ranking = last), the final run is a maximal block of identical rankings; Compute returns exactly those statistics for the checks of its run and, when it ends by its criteria, ends at the first scheduled check with delta <= epsilon and length >= L; the ranking consists of min(k, nnz) distinct scored peers none of which is out-scored by a peer left out, in ascending score order (for values on which < is a strict weak order). Tied to /repo by bit-exact correspondence of result, iteration count and all four statistics.",
+        "level_note": "Trusted: Coq kernel, vm_compute, FloatAxioms; hand-written model incl. Go's insertion-sort regime of sort.Sort for <= 12 entries (ties compare as in the code only for n <= 12; generated cases have n <= 10); harness. The oracle skips runs with tied scores at a check (outside the quantifier).",
+        "technique": "Coq proof (run-length abstraction of the checker state; insertion sort correctness under a strict weak order) + bit-exact correspondence by vm_compute",
+        "families": ["C18"],
+        "go_tests": "^TestD5LeadersFromTop$",
+        "rule": "random canonical graphs (9 families, n 2..10), alpha in {0.5..0.05}, epsilon in {1,1e-2,1e-4,1e-6}, flatTail 0..4, numLeaders 0..n+1, 70% with a random canonical start vector (so that rankings change between checks), schedules: default / max 1..12 / (freq,min) / freq 2 + max. Non-trivial = more than one iteration and (threshold > 1 or length > 0).",
+        "explanation": "Theorems C18_* + bit-exact correspondence; oracle = rankings recomputed by counting (no sort) on the model's iterates, run-length statistics and the stopping rule.",
+        "assumptions": ["scores at checked iterates pairwise distinct for the top-k clause (property's quantifier)"],
+    },
 }
